@@ -1,6 +1,6 @@
-//! Property C04 — correspondence / expectation run (see DESIGN.md §5, C04).
+//! Property C04 — degree bounds are enforced by committer and verifier (Marlin, Sonic, IPA).
 use crate::Ctx;
 
 pub fn run(ctx: &mut Ctx) {
-    let _ = ctx;
+    crate::props_marlin::c04(ctx);
 }
